@@ -4,6 +4,7 @@ CONSTANTS
   Types = {"A", "B"}
   MaxCalls = 2
   EarlyUnlock = TRUE
+  Registry = FALSE
   Locked = TRUE
 INVARIANTS PublishedComplete OneEntryPerType UsesOwnCompleteCodec MutexHeldByBuilder NoLossWhenLocked IdentityStableWhenLocked
 PROPERTIES MapsImmutable
